@@ -235,7 +235,10 @@ Definition encode_kmpe (M : kmpe_inst) : milp :=
      obj := kmpe_obj M; maximize := false |}.
 
 (* ------------------------------------------------------------------ reported quantities *)
-(* get_objective_value of kLeastAbsErrors as the code computes it: the plain sum of the returned
-   edge errors (NOT multiplied by the error scaling) *)
+(* get_objective_value of kLeastAbsErrors as the code computes it (since /repo 158493f): every returned
+   edge error weighed by its error_scaling factor (default 1) *)
 Definition klae_reported_objective_code (I : err_inst) (a : var -> Q) : Q :=
+  sumq (fun e => (a (Err (fst e) (snd e)) * scale_of I e)%Q) (basic_edges I).
+(* the behaviour before 158493f, kept only for the refutation witness: the plain sum of the errors *)
+Definition klae_reported_objective_old (I : err_inst) (a : var -> Q) : Q :=
   sumq (fun e => a (Err (fst e) (snd e))) (basic_edges I).
